@@ -29,7 +29,6 @@ import logging
 import selectors
 import time
 import typing
-from contextlib import suppress
 from itertools import count
 
 from .abstract_loop import EventLoop, ExitMainLoop
@@ -180,8 +179,7 @@ class SelectEventLoop(EventLoop):
         with contextlib.suppress(ExitMainLoop):
             self._did_something = True
             while True:
-                with suppress(InterruptedError):
-                    self._loop()
+                self._loop()
 
     def _loop(self) -> None:
         """
